@@ -73,9 +73,9 @@ copyreg.pickle(types.MethodType, _pickle_method, _unpickle_method)
 def ignore_aliases(data):
     try:
         # numpy arrays no longer want to be compared to None, so instead check for a none by looking for if it is an instance of NoneType
-        if data is None or len(data) == 0:
-            return True
         if isinstance(data, (str, bool, int, float)):
+            return True
+        if data is None or len(data) == 0:
             return True
     except TypeError as e:
         pass
